@@ -1,13 +1,16 @@
 #!/bin/bash
-# usage: try_patch.sh <patch.diff> <prop> [<prop>...] : apply to /repo, run quick checks, always revert
+# usage: try_patch.sh <patch.diff> <prop> [<prop>...] : apply to /repo, run quick checks (in parallel), always revert
 patch="$1"; shift
 exec 9>/tmp/agilint_repo.lock; flock 9   # one user of /repo at a time
 cd /repo || exit 9
 if [ -n "$(git status --porcelain --untracked-files=no)" ]; then echo "REPO DIRTY"; exit 9; fi
 git apply "$patch" || { echo "PATCH DOES NOT APPLY"; exit 9; }
 cd /verif
+tag=$$
+printf '%s\n' "$@" | xargs -P 10 -I{} sh -c '/venv/bin/python -m agilint check {} --tier quick > /tmp/try_'$tag'_{}.out 2>&1; echo $? > /tmp/try_'$tag'_{}.rc'
 for p in "$@"; do
-  /venv/bin/python -m agilint check "$p" --tier quick > /tmp/try_$p.out 2>&1; rc=$?
-  echo "== $p rc=$rc"; grep -A4 "^VIOLATION\|^ANALYSIS" /tmp/try_$p.out | grep -v "^  rule" | head -12
+  rc=$(cat /tmp/try_${tag}_$p.rc)
+  echo "== $p rc=$rc"; grep -A4 "^VIOLATION\|^ANALYSIS" /tmp/try_${tag}_$p.out | grep -v "^  rule" | head -12
+  cp /tmp/try_${tag}_$p.out /tmp/try_$p.out; rm -f /tmp/try_${tag}_$p.out /tmp/try_${tag}_$p.rc
 done
 git -C /repo checkout -- .
